@@ -2,7 +2,7 @@
 ALPHA = ['a', 'b', 'c']
 # scope components include look-alikes: 'a' is a character prefix of 'ab' / 'a_b' but not a component prefix
 SCOPE_ALPHA = ['a', 'b', 'c', 'ab', 'a_b', 'a']
-PNAMES = ['x', 'y', 'z', 'w', 'v', 'u']
+PNAMES = ['x', 'y', 'z', 'w', 'v', 'u', 'X', 'Y']   # 'x'/'X': names that differ only in case
 MODULES = ['m', 'm.n', 'k.n', 'k', 'q.m.n']
 LEAVES = ['f', 'g', 'h']
 REQ = {'req': 1}
@@ -214,8 +214,8 @@ def gen_bind(rng, reg, scope, value=None, full_spelling=True):
 
 def gen_class_with_method(rng, obj0, module='m'):
   """A class registered with register/external_configurable whose method was registered first."""
-  mname = rng.choice(['meth', 'run'])
   cname = rng.choice(['K', 'L'])
+  mname = rng.choice(['meth', 'run', 'run' + cname, cname + 'x'])   # a method name may contain the class name
   msig = {'pos': [['self', None], ['y', None], ['x', {'v': 1}]], 'kwonly': [], 'varargs': False, 'varkw': False}
   mop = {'op': 'register', 'name': mname, 'nameValid': True, 'module': module, 'moduleValid': True, 'sig': msig,
          'allow': [], 'deny': [], 'listTypesOk': True, 'obj': obj0, 'method': False, 'methods': [],
@@ -326,7 +326,7 @@ def gen_history(rng, regs, n, scopes, depth=0, w=None, next_obj=None):
       ops.append({'op': 'finalize'})
     elif r < 0.56 and depth < 2:
       body = gen_history(rng, regs, rng.randint(0, 4), scopes, depth + 1, w, next_obj)
-      ops.append({'op': 'unlock', 'body': body, 'raises': rng.random() < 0.5})
+      ops.append({'op': 'unlock', 'body': body, 'raises': rng.random() < 0.5, '_base': rng.random() < 0.4})
     elif r < 0.62:
       next_obj[0] += 1
       ops.append(gen_late_register(rng, next_obj[0]))
